@@ -106,6 +106,9 @@ pub enum RequestCreationError {
     /// The client sent an `Expect` header that was not recognized by tiny-http.
     ExpectationFailed,
 
+    /// The client sent a `Content-Length` header that is not a decimal number.
+    InvalidContentLength,
+
     /// Error while reading data from the socket during the creation of the `Request`.
     CreationIoError(IoError),
 }
@@ -146,16 +149,31 @@ where
         .find(|h: &&Header| h.field.equiv("Transfer-Encoding"))
         .map(|h| h.value.clone());
 
-    // finding the content-length header
-    let content_length = if transfer_encoding.is_some() {
-        // if transfer-encoding is specified, the Content-Length
-        // header must be ignored (RFC2616 #4.4)
+    // finding the content-length header ; its value must be a plain decimal number,
+    // otherwise we can't know where the message ends
+    let content_length = match headers
+        .iter()
+        .find(|h: &&Header| h.field.equiv("Content-Length"))
+    {
+        Some(h) => {
+            let value = h.value.as_str();
+            if value.is_empty() || !value.bytes().all(|b| b.is_ascii_digit()) {
+                return Err(RequestCreationError::InvalidContentLength);
+            }
+            match FromStr::from_str(value) {
+                Ok(len) => Some(len),
+                Err(_) => return Err(RequestCreationError::InvalidContentLength),
+            }
+        }
+        None => None,
+    };
+
+    // if transfer-encoding is specified, the Content-Length
+    // header must be ignored (RFC2616 #4.4)
+    let content_length: Option<usize> = if transfer_encoding.is_some() {
         None
     } else {
-        headers
-            .iter()
-            .find(|h: &&Header| h.field.equiv("Content-Length"))
-            .and_then(|h| FromStr::from_str(h.value.as_str()).ok())
+        content_length
     };
 
     // true if the client sent a `Expect: 100-continue` header
